@@ -15,7 +15,8 @@ EXPLANATION = ('Calendar correctness and the exact print/parse round trip are in
                'buf <= p < end on every path, over symbolic pointers and a symbolic snprintf/to_chars result (linear constraints): in '
                'particular the cursor is advanced by the snprintf result only after that result was compared with the remaining space '
                '(snprintf returns the length the full text would have). R14.2: the fixed buffers handed to these printers hold the longest '
-               'duration text, and the callers use the returned end pointer.')
+               'duration text, and the callers use the returned end pointer. R14.3: the era computations of both calendar directions are floor '
+               'divisions (bias == divisor - 1) - a necessary condition of calendar correctness for dates before year 0.')
 ASSUMPTIONS = ['snprintf returns a negative value or the length of the complete text (C11 7.21.6.5); to_chars returns ptr in [first, last]',
                'PrintSecondsFractions returns nullptr or a pointer in [pos, end]; its callers pass fractions below one second']
 TRUSTED = ['clang 14 AST', 'bsfacts', 'bsv/linear.py']
@@ -136,6 +137,8 @@ def run(prog, rep):
                             'moves the cursor beyond the end of the buffer (stack buffer overflow for long texts)'
                             % (short, what, len([o for o in oks if not o]), len(oks)), func=f.id)
 
+    check_floor_bias(prog, rep)
+
     rep.rule('R14.2', 'callers: the buffer passed to PrintIsoUtc / the duration printer is a local char array passed together with its own end', floor=3)
     n2 = 0
     for f in sorted(prog.funcs.values(), key=lambda g: g.id):
@@ -159,3 +162,56 @@ def run(prog, rep):
                 rep.finding('R14.2', 'PrintIsoUtc caller|buffer', f.loc(n), 'PrintIsoUtc is not called with (buf, buf + sizeof(buf)) of one local array', func=f.id)
     if n2 < 2:
         raise AnalysisBroken('R14.2: callers of PrintIsoUtc not found')
+
+
+def check_floor_bias(prog, rep):
+    """Hinnant's civil-date algorithms divide with truncation and correct negative operands by a bias: (x >= 0 ? x : x - B) / K is the floor
+    division of x by K exactly when B == K - 1. A wrong bias shifts one day in 400 years (dates before year 0)."""
+    from bsv.facts import child, strip
+    rep.rule('R14.3', 'every "(x >= 0 ? x : x - B) / K" in convert_chrono.h is a floor division: B == K - 1 (era computations of both directions)', floor=2)
+    seen = set()
+    for f in sorted(prog.funcs.values(), key=lambda g: g.id):
+        if f.body is None or not f.relfile.endswith('conversion_detail/convert_chrono.h'):
+            continue
+        for n in f.walk():
+            if n['k'] != 'BinaryOperator' or n.get('op') != '/':
+                continue
+            lhs = strip(n['c'][0])
+            while lhs is not None and lhs['k'] == 'ParenExpr':
+                lhs = strip(lhs['c'][0])
+            if lhs is None or lhs['k'] != 'ConditionalOperator':
+                continue
+            cond, tv, fv = strip(lhs['c'][0]), strip(lhs['c'][1]), strip(lhs['c'][2])
+            while cond is not None and cond['k'] == 'ParenExpr':
+                cond = strip(cond['c'][0])
+            if cond is None or cond['k'] != 'BinaryOperator' or cond.get('op') != '>=' or strip(cond['c'][1]).get('cv') != 0:
+                continue
+            if fv is None or fv['k'] != 'BinaryOperator' or fv.get('op') != '-':
+                continue
+            def const_of(x):
+                while x is not None:
+                    if 'cv' in x:
+                        return x['cv']
+                    if x['k'] in ('ImplicitCastExpr', 'ParenExpr', 'CXXStaticCastExpr', 'ConstantExpr') and x.get('c'):
+                        x = x['c'][0]
+                    else:
+                        return None
+                return None
+            K = const_of(n['c'][1])
+            Bv = const_of(fv['c'][1])
+            x1, x2, x3 = strip(cond['c'][0]), tv, strip(fv['c'][0])
+            same = x1 is not None and x2 is not None and x3 is not None and x1.get('d') is not None and x1.get('d') == x2.get('d') == x3.get('d')
+            key = (f.loc(n), K, Bv)
+            if key in seen:
+                continue
+            seen.add(key)
+            rep.touch(f)
+            var = x1.get('n') if x1 is not None else '?'
+            if not same or K is None or Bv is None:
+                rep.finding('R14.3', 'floor division|%s|shape' % var, f.loc(n), 'biased division at %s is not of the form (x >= 0 ? x : x - B) / K over one variable '
+                            'with constant B and K' % f.loc(n), func=f.id)
+            elif Bv != K - 1:
+                rep.finding('R14.3', 'floor division|%s|bias' % var, f.loc(n), 'era computation (%s >= 0 ? %s : %s - %d) / %d is not the floor division: the bias must be %d; '
+                            'for %s = -%d*k the result is one too low, the date is printed/parsed one day off' % (var, var, var, Bv, K, K - 1, var, K), func=f.id)
+            else:
+                rep.ok('R14.3', '(%s >= 0 ? %s : %s - %d) / %d at %s' % (var, var, var, Bv, K, f.loc(n)), sample={'variable': var, 'bias': Bv, 'divisor': K})
